@@ -25,20 +25,21 @@ MAX_FAIL_KEEP = 40
 
 # ----------------------------------------------------------------------------- verdicts
 class Fail:
-    __slots__ = ("clause", "sig", "detail", "known")
+    __slots__ = ("clause", "sig", "detail", "known", "case")
 
-    def __init__(self, clause, detail="", sig=None, known=None):
+    def __init__(self, clause, detail="", sig=None, known=None, case=None):
         self.clause = clause
         self.sig = f"{clause}|{sig}" if sig else clause
         self.detail = detail
         self.known = known
+        self.case = case           # narrower replayable case (e.g. one fault of an enumerated batch)
 
     def as_dict(self):
         return dict(clause=self.clause, sig=self.sig, detail=self.detail, known=self.known)
 
 
 class Verdict:
-    __slots__ = ("fails", "classes", "nontrivial", "inconclusive", "excluded", "key")
+    __slots__ = ("fails", "classes", "nontrivial", "inconclusive", "excluded", "key", "evals", "nt_keys")
 
     def __init__(self):
         self.fails = []
@@ -47,9 +48,11 @@ class Verdict:
         self.inconclusive = None   # reason string: case could not be decided (counted, not a violation)
         self.excluded = None       # reason string: excluded by construction (known finding shape)
         self.key = None            # canonical data for distinctness (default: the case)
+        self.evals = None          # a case that is a batch of evaluations (fault enumeration) says how many
+        self.nt_keys = None        # ... and lists the distinct non-trivial ones (hashable plain data)
 
-    def fail(self, clause, detail="", sig=None, known=None):
-        self.fails.append(Fail(clause, detail, sig, known))
+    def fail(self, clause, detail="", sig=None, known=None, case=None):
+        self.fails.append(Fail(clause, detail, sig, known, case))
 
     def cls(self, *names):
         self.classes.extend(names)
@@ -99,8 +102,11 @@ class Stats:
         self.phase_counts = collections.Counter()
 
     def add(self, mod, phase_name, shard, case, v):
-        self.evaluations += 1
-        self.phase_counts[phase_name] += 1
+        self.evaluations += 1 if v.evals is None else v.evals
+        self.phase_counts[phase_name] += 1 if v.evals is None else v.evals
+        if v.nt_keys:
+            for k in v.nt_keys:
+                self.nontrivial.add(codec.digest(k))
         for c in v.classes:
             self.classes[c] += 1
         if v.inconclusive:
@@ -108,7 +114,8 @@ class Stats:
         if v.excluded:
             self.excluded[v.excluded] += 1
         if v.nontrivial:
-            self.nontrivial.add(codec.digest(v.key if v.key is not None else case))
+            if v.nt_keys is None:
+                self.nontrivial.add(codec.digest(v.key if v.key is not None else case))
             newcls = [c for c in v.classes if c not in self.sample_classes]
             if len(self.samples) < 3 or (newcls and len(self.samples) < MAX_SAMPLES):
                 self.sample_classes.update(v.classes)
@@ -118,17 +125,18 @@ class Stats:
             if f.known:
                 self.known[f.known] += 1
                 continue
-            size = len(codec.dumps(case))
+            fcase = f.case if f.case is not None else case
+            size = len(codec.dumps(fcase))
             rec = self.fails.get(f.sig)
             if rec is None:
                 if len(self.fails) >= MAX_FAIL_KEEP:
                     continue
-                self.fails[f.sig] = dict(count=1, clause=f.clause, detail=f.detail, case=codec.enc(case),
+                self.fails[f.sig] = dict(count=1, clause=f.clause, detail=f.detail, case=codec.enc(fcase),
                                          size=size, phase=phase_name, shard=shard)
             else:
                 rec["count"] += 1
                 if size < rec["size"]:
-                    rec.update(detail=f.detail, case=codec.enc(case), size=size, phase=phase_name, shard=shard)
+                    rec.update(detail=f.detail, case=codec.enc(fcase), size=size, phase=phase_name, shard=shard)
 
     def export(self):
         return dict(evaluations=self.evaluations, nontrivial=sorted(self.nontrivial),
@@ -241,9 +249,10 @@ def shrink_failure(mod, tier, seed, nshards, rec, sig, budget_s):
         v = mod.check_case(case)
         for f in v.fails:
             if f.sig == sig and not f.known:
-                size = len(codec.dumps(case))
+                fcase = f.case if f.case is not None else case
+                size = len(codec.dumps(fcase))
                 if size <= best["size"]:
-                    best.update(case=case, detail=f.detail, size=size)
+                    best.update(case=fcase, detail=f.detail, size=size)
                 raise _Found()
     try:
         run_strategy(ph.strategy(), n, shard_seed(seed, shard, pi), fn, shrink=True)
